@@ -256,6 +256,11 @@ func (hp *HPACK) Next(hf *HeaderField, b []byte) ([]byte, error) {
 // nextField decodes one header field. blockStart says whether b is the start
 // of a header block, which is the only place a dynamic table size update may
 // appear. A CONTINUATION carries on a block rather than starting one.
+//
+// When b ends before the field does, the error is ErrUnexpectedSize and the
+// bytes returned are the ones to put in front of what arrives next: the field
+// from its first byte, without the size updates before it. Those have been
+// applied, and are not to be read again.
 func (hp *HPACK) nextField(hf *HeaderField, blockStart bool, fieldsProcessed int, b []byte) ([]byte, error) {
 	var (
 		n   uint64
@@ -266,6 +271,9 @@ func (hp *HPACK) nextField(hf *HeaderField, blockStart bool, fieldsProcessed int
 	// hf is reused from field to field: the never-indexed mark of the previous
 	// one must not carry over.
 	hf.sensible = false
+
+	// where the field being decoded starts
+	start := b
 
 loop:
 	if len(b) == 0 {
@@ -327,7 +335,7 @@ loop:
 			if len(b) == 0 {
 				// The field is cut short: its value is in the bytes that have
 				// not arrived yet.
-				return b, ErrUnexpectedSize
+				return start, ErrUnexpectedSize
 			}
 
 			scratch := acquireScratch()
@@ -386,7 +394,7 @@ loop:
 			if len(b) == 0 {
 				// The field is cut short: its value is in the bytes that have
 				// not arrived yet.
-				return b, ErrUnexpectedSize
+				return start, ErrUnexpectedSize
 			}
 
 			scratch := acquireScratch()
@@ -423,11 +431,16 @@ loop:
 
 		hp.maxTableSize = uint32(n)
 		hp.shrink()
+		start = b
 
 		goto loop
 	}
 
-	return b, err
+	if err != nil {
+		return start, err
+	}
+
+	return b, nil
 }
 
 // readInt reads int type from header field.
